@@ -32,7 +32,7 @@ WHAT = {
     KEY_ITER: 'a dict/list handed to a tracked method inside an iterable that is not a list/dict (tuple, generator, dict view; for |= also a '
               'list of pairs) is stored unwrapped: after the next flush a change made to it in place is not written at commit',
     KEY_TUPLE: 'a dict/list inside a tuple stored in a Json value is never wrapped: after the next flush a change made to it in place is not written at commit',
-    KEY_PARTIAL: 'a mutating method that raises after it has already changed the container (generator argument that raises, |= with a bad pair) '
+    KEY_PARTIAL: 'a mutating method that raises after it has already changed the container (sort() of items that cannot all be compared; an argument that raises midway) '
                  'does not notify: the part of the change that happened is not written at commit',
 }
 
